@@ -379,7 +379,14 @@ func VerifC02_TopScalar() {
 			}
 		}
 		if end == n && node.Kind == vrt.JString {
-			vrt.Assert(err == nil, "C02.top-scalar.string.converts")
+			// (the label names the one escape the recorded finding KF-C02-7 is about, so that it hides nothing else)
+			lab := "C02.top-scalar.string.converts"
+			for i := 0; i+1 < n; i++ {
+				if doc[i] == '\\' && doc[i+1] == '/' {
+					lab = "C02.top-scalar.string.escaped-solidus.converts"
+				}
+			}
+			vrt.Assert(err == nil, lab)
 		}
 	}
 }
